@@ -7,6 +7,7 @@ import HkModel.Drive.Signing
 import HkModel.Drive.ApiAuth
 import HkModel.Drive.Mcp
 import HkModel.Drive.Limits
+import HkModel.Drive.Fidelity
 /-! `hkdriver <mode>`: reads protocol lines on stdin, answers one line per input line. -/
 open Hk
 
@@ -54,6 +55,7 @@ def main (args : List String) : IO UInt32 := do
   | ["apiauth"] => runPure DriveApiAuth.processLine
   | ["mcp"] => runPure DriveMcp.processLine
   | ["limits"] => runPure DriveLimits.processLine
+  | ["fidelity"] => runPure DriveFidelity.processLine
   | ["auth"] =>
     let st ← loopAuth stdin stdout {}
     stdout.putStrLn ("SUMMARY {\"steps\":" ++ toString st.n ++ ",\"not_ok\":" ++ toString st.bad ++ "}")
